@@ -78,6 +78,39 @@ def word (s : StrIt) : StrIt × ConvRes (List Char) :=
       if s.text.length ≤ r then ({ s with restore := none, patched := false }, .ok (txt.take n))
       else ({ s with restore := some r, patched := true }, .ok (txt.take n))
 
+/-- body loop of `mpt_convert_key` with a separator set: (length of the key, characters consumed) -/
+def keyBody (sep : List Char) (spaceEnds : Bool) : List Char → Nat → Nat → Nat × Nat
+  | [], e, len => (len, e)
+  | c :: cs, e, len =>
+    if isSpace c then (if spaceEnds then (len, e) else keyBody sep spaceEnds cs (e + 1) len)
+    else if sep.contains c then (len, e + 1)
+    else keyBody sep spaceEnds cs (e + 1) (e + 1)
+
+/-- `mpt_convert_key(&txt, sep, &klen)`: offset and length of the key, `none` = NULL (nothing there) -/
+def keyScan (sep : List Char) (txt : List Char) : Option (Nat × Nat) :=
+  let k := spaceLen txt
+  let body := txt.drop k
+  if sep.isEmpty then
+    (if wordLen body = 0 then none else some (k, wordLen body))
+  else
+    let r := keyBody sep (sep.any isSpace) body 0 0
+    if r.2 = 0 then none else some (k, r.1)
+
+/-- `parseConvertElement(conv, 'k', dest)`: the next key; the element ends behind the key (fix in /repo) -/
+def key (s : StrIt) : StrIt × ConvRes (List Char) :=
+  match s.pos with
+  | none => (s, .err .MissingData)
+  | some p =>
+    let txt := s.text.drop p
+    if txt.isEmpty then ({ s with restore := none, patched := false }, .err .MissingData)
+    else
+      match keyScan s.sep txt with
+      | none => ({ s with restore := none, patched := false }, .err .BadValue)
+      | some (k, n) =>
+        let r := p + k + n
+        if s.text.length ≤ r then ({ s with restore := none, patched := false }, .ok ((txt.drop k).take n))
+        else ({ s with restore := some r, patched := true }, .ok ((txt.drop k).take n))
+
 /-- conversion to `double` -/
 def conv (s : StrIt) : StrIt × ConvRes Rat := convWith cdouble s
 
